@@ -2,6 +2,7 @@ import Props.Skeleton
 import Lemmas.SkelChain
 import Lemmas.EngineChain
 import Lemmas.SkelAck
+import Model.Engine.SkelExec
 /-! SkeletonRef — the regenerated skeleton, INTERPRETED, refines the component machines: statements for ALL schedules.
 
 `Props/Skeleton.lean` establishes facts about every control path of the skeleton extracted on this run (C1).  Here
@@ -94,5 +95,82 @@ theorem acknowledged_is_persisted_every_schedule (dry : Nat → Bool) (store : L
   refine ⟨s, hs, fun x hx => ?_, hi.clean⟩
   have := hi.acked x hx
   exact ⟨hd ▸ this.1, this.2.2⟩
+
+-- ------------------------------------------------------------------------------------------------ non-vacuity
+
+/-! The system is not empty: two real paths of the generated `CreateTransaction` run to completion in it — a write with
+an idempotency key and a reference that commits, waits for the store and is acknowledged; then a retry with the same
+key that finds the log (its first items interleaved with the first request's) and is answered the same transaction. -/
+
+namespace Demo
+open Sys
+
+def job1 : Job := { a := 1, ep := "CreateTransaction", req := { kind := .create, dry := false, ik := "k", ref := "r", target := 0, force := false, over := 0 }, postings := [⟨"world", "alice", 10, "USD"⟩], target := "", metaKey := "", r := ["alice"], w := [], bals := [] }
+def job2 : Job := { job1 with a := 2 }
+
+def commits (p : Path) : Bool := p.contains (.fin true "") && chose p "ik≠''" true && chose p "ref≠''" true && p.any isAppend
+def retries (p : Path) : Bool := p.contains (.fin true "") && chose p "ik≠''" true && p.any isReadIkOk && chose p "dry" false
+
+def cmds (p1 p2 : Path) : List Cmd :=
+  let k1 := p1.findIdx isWaitPersisted
+  [.arrive job1 p1] ++ List.replicate k1 (.step 1) ++ [.gate 1 true, .arrive job2 p2] ++ List.replicate 3 (.step 2) ++
+    List.replicate (p1.length - k1) (.step 1) ++ List.replicate (p2.length - 3) (.step 2)
+
+def finishes (tr : List Ev) : List (Nat × Bool × Option Nat) :=
+  tr.filterMap (fun e => match e with | .finish a ok _ t => some (a, ok, t) | _ => none)
+
+def good (r : State × List Ev) : Bool :=
+  decide (r.1.sh.store.map (·.txid) = [some 0]) && decide (r.1.sh.queue.length = 0) && decide (r.1.sh.held.length = 0) &&
+    decide (finishes r.2 = [(1, true, some 0), (2, true, some 0)])
+
+def ok : Bool :=
+  match (paths "CreateTransaction" createTransaction).find? commits, (paths "CreateTransaction" createTransaction).find? retries with
+  | some p1, some p2 => (match execAll (init []) (cmds (tagged p1) (tagged p2)) with | some r => good r | none => false)
+  | _, _ => false
+
+theorem runs : ok = true := by decide +kernel
+
+theorem admissible_append (adm : Job → Path → Prop) (cs ds : List Cmd) (h1 : admissible adm cs) (h2 : admissible adm ds) :
+    admissible adm (cs ++ ds) := by
+  induction cs with
+  | nil => simpa using h2
+  | cons c cs ih => cases c <;> simp_all [admissible]
+
+theorem admissible_steps (adm : Job → Path → Prop) (n a : Nat) : admissible adm (List.replicate n (.step a)) := by
+  induction n with
+  | zero => simp [admissible]
+  | succ n ih => simpa [List.replicate_succ, admissible] using ih
+
+end Demo
+
+/-- a run of the interpreted skeleton in which two requests are acknowledged, one entry is persisted, nothing stays reserved -/
+example : ∃ tr st, Sys.Run Admitted (Sys.init []) tr st ∧ st.sh.store.length = 1 ∧ st.sh.held = [] ∧
+    Demo.finishes tr = [(1, true, some 0), (2, true, some 0)] := by
+  have h := Demo.runs
+  unfold Demo.ok at h
+  split at h
+  · rename_i p1 p2 h1 h2
+    have hm1 := List.mem_of_find?_eq_some h1
+    have hm2 := List.mem_of_find?_eq_some h2
+    have hep : ("CreateTransaction", createTransaction) ∈ entryPoints := by unfold entryPoints; exact List.mem_cons_self ..
+    have a1 : Admitted Demo.job1 (tagged p1) := ⟨_, hep, rfl, p1, hm1, rfl⟩
+    have a2 : Admitted Demo.job2 (tagged p2) := ⟨_, hep, rfl, p2, hm2, rfl⟩
+    have hadm : Sys.admissible Admitted (Demo.cmds (tagged p1) (tagged p2)) := by
+      unfold Demo.cmds
+      refine Demo.admissible_append _ _ _ (Demo.admissible_append _ _ _ (Demo.admissible_append _ _ _ (Demo.admissible_append _ _ _
+        (Demo.admissible_append _ _ _ ?_ (Demo.admissible_steps _ _ _)) ?_) (Demo.admissible_steps _ _ _)) (Demo.admissible_steps _ _ _))
+        (Demo.admissible_steps _ _ _)
+      · exact ⟨a1, trivial⟩
+      · exact ⟨a2, trivial⟩
+    cases hr : Sys.execAll (Sys.init []) (Demo.cmds (tagged p1) (tagged p2)) with
+    | none => simp [hr] at h
+    | some r =>
+      simp only [hr, Demo.good, Bool.and_eq_true, decide_eq_true_eq] at h
+      obtain ⟨⟨⟨hs, _⟩, hh⟩, hf⟩ := h
+      refine ⟨r.2, r.1, Sys.execAll_sound Admitted _ _ _ _ hadm hr, ?_, ?_, hf⟩
+      · have := congrArg List.length hs
+        simpa using this
+      · exact List.length_eq_zero_iff.1 hh
+  · cases h
 
 end SkeletonRef
